@@ -196,7 +196,9 @@ pub struct IdCase {
     pub seed: u64,
     pub problem: crate::tw::problems::RealSpec,
     /// where the loop body evaluates: 0 = directly, 1 = only in the else body of an if/else whose
-    /// condition never holds, 2 = only in the if body of a branch whose condition always holds
+    /// condition never holds, 2 = only in the if body of a branch whose condition always holds,
+    /// 3 = after a scope with a surrogate evaluator, 4 = directly, and a second loop (two more
+    /// passes of the same body) follows the first in the same scope: one run, one counter
     #[serde(default)]
     pub placement: u8,
 }
@@ -227,7 +229,9 @@ fn surrogate_merge(_outer: &mut mahf::State<crate::tw::problems::RealP>, _inner:
 
 fn id_config<I: mahf::identifier::Identifier>(c: &IdCase, cond: Box<dyn mahf::Condition<crate::tw::problems::RealP>>) -> mahf::Configuration<crate::tw::problems::RealP> {
     use mahf::components::{boundary, initialization, mutation};
-    mahf::Configuration::builder()
+    let second_phase = c.placement == 4;
+    let n = c.iterations;
+    let builder = mahf::Configuration::builder()
         .do_(initialization::RandomSpread::new(c.population))
         .while_(cond, |b| {
             let b = b.do_(mutation::NormalMutation::new_dev(0.1)).do_(boundary::Saturation::new());
@@ -243,8 +247,14 @@ fn id_config<I: mahf::identifier::Identifier>(c: &IdCase, cond: Box<dyn mahf::Co
                 _ => b.evaluate_with::<I>(),
             }
             .update_best_individual()
-        })
-        .build()
+        });
+    if second_phase {
+        builder
+            .while_(mahf::conditions::LessThanN::iterations(n + 2), |b| b.do_(mutation::NormalMutation::new_dev(0.05)).do_(boundary::Saturation::new()).evaluate_with::<I>().update_best_individual())
+            .build()
+    } else {
+        builder.build()
+    }
 }
 
 impl World for EvalIds {
@@ -260,7 +270,7 @@ impl World for EvalIds {
                 registered.push(id);
             }
         }
-        IdCase { requested: g.below(3) as u8, registered, population: g.below(6) as u32, iterations: g.below(5) as u32, seed: g.u64(), problem: crate::tw::problems::gen_real(&mut g, false, 3), placement: g.below(4) as u8 }
+        IdCase { requested: g.below(3) as u8, registered, population: g.below(6) as u32, iterations: g.below(5) as u32, seed: g.u64(), problem: crate::tw::problems::gen_real(&mut g, false, 3), placement: g.below(5) as u8 }
     }
     fn execute(&self, c: &IdCase) -> Outcome<IdCase> {
         use crate::tw::problems::*;
